@@ -346,6 +346,7 @@ def evaluate(obs):
                                           **oracles.base_mech(obs, x), entry=how, sym='unstarted-transfer-escaped-cancel', ntransfers=len(obs.xfers)))
         if targeted or how not in ('future.cancel', 'kbi_result'):
             viol += oracles.cancel_oracle(obs, x, how, not_started=not_started, targeted=targeted)
+            viol += oracles.stable_outcome_oracle(obs, x)
             nontrivial = True
             if x.outcome == 'success':
                 stats['success_after_cancel'] += 1
